@@ -1,5 +1,5 @@
 (* C18 — The local server exposes profile and symbol API only under the secret path. *)
-From SV Require Import Generated.Consts Model.Server Proofs.ServerProofs.
+From SV Require Import Generated.Consts Model.Server Proofs.ServerProofs Proofs.Base32Inj.
 Open Scope N_scope.
 
 (* Every request whose path does not begin with "/" ++ token - whatever the method, the path and the
@@ -45,7 +45,14 @@ Theorem C18_token_shape :
     length (to_nix_base32 bytes) = 39%nat /\ Forall (fun c => In c base32_chars) (to_nix_base32 bytes).
 Proof. split; [vm_compute; reflexivity|]. intros bytes H. split; [apply token_length; exact H|apply token_alphabet]. Qed.
 
+(* the encoding loses nothing: different 24-byte strings give different tokens (all 192 random bits are in the token) *)
+Theorem C18_token_injective :
+  forall a b : list N, length a = 24%nat -> length b = 24%nat -> (forall x, In x a -> x < 256) -> (forall x, In x b -> x < 256) ->
+    to_nix_base32 a = to_nix_base32 b -> a = b.
+Proof. exact token_injective. Qed.
+
 Print Assumptions C18_no_prefix_no_cors.
+Print Assumptions C18_token_injective.
 Print Assumptions C18_prefix_characterised.
 Print Assumptions C18_prefix_dispatch.
 Print Assumptions C18_token_shape.
